@@ -109,6 +109,7 @@ func buildFixture() *schemabuilder.Schema {
 	q.FieldFunc("value", func() Shape { return *full() })
 	q.FieldFunc("shapes", func() []*Shape { return []*Shape{full(), sparse()} })
 	q.FieldFunc("noShapes", func() []*Shape { return nil })
+	q.FieldFunc("nilShapes", func() []*Shape { return []*Shape{nil, nil} })
 	q.FieldFunc("required", func() *Shape { return full() }, schemabuilder.NonNullable)
 	q.FieldFunc("requiredList", func() []*Leaf { return []*Leaf{{1, "a"}} }, schemabuilder.ListEntryNonNullable)
 	q.FieldFunc("either", func(args struct{ Which int64 }) *Either {
@@ -155,6 +156,16 @@ func buildFixture() *schemabuilder.Schema {
 		return out, nil
 	}, schemabuilder.NonNullable)
 	shape.FieldFunc("reqLeaf", func(sh *Shape) *Leaf { return sh.PL }, schemabuilder.NonNullable)
+	// methods split into parallel invocations (selected under null objects too: zero sources to split)
+	two := schemabuilder.NumParallelInvocationsFunc(func(ctx context.Context, n int) int { return 2 })
+	shape.FieldFunc("parallel", func(sh *Shape) string { return "p:" + sh.S }, two)
+	shape.BatchFieldFunc("parallelBatched", func(ctx context.Context, in map[batch.Index]*Shape) (map[batch.Index]int64, error) {
+		out := map[batch.Index]int64{}
+		for i, sh := range in {
+			out[i] = sh.I
+		}
+		return out, nil
+	}, two)
 	shape.FieldFunc("leaves", func(sh *Shape) []Leaf { return sh.VLs })
 	shape.FieldFunc("union", func(sh *Shape) *Either {
 		if sh.PL != nil {
@@ -447,5 +458,5 @@ func run(rp *explore.Report, tier string) {
 
 func init() {
 	reg.Register(&reg.Harness{Property: "C14", Name: "c14/advertised", Level: "exploration", Run: run,
-		Rule: "fixture of Go shapes (all scalar widths, named scalars, enum, time, bytes, text-marshaler, pointers, slices of values/pointers/enums, nested and value structs, union, NonNullable / ListEntryNonNullable / Expensive / batch methods, NonNullable plain and batch methods (object and scalar pointers) that return nil for some objects, methods with every signature form, arguments incl. input objects) -> introspection JSON. From the JSON alone: every path of composite fields up to depth 2 (thorough 3), ending in all leaves / all fields / each field alone / the same field under two aliases (arguments filled from advertised input types), plus at every position the three ill-formedness kinds (unknown field, selection on a leaf, none on a composite), plus one named fragment (each field of each object type) spread at two positions: the same type twice (well-formed) or a second type that lacks the field or has it with the other leaf/composite kind (ill-formed), in both orders; plus one composite field selected under one alias with two different sub-selections at two paths to the same (long-lived) object. Oracle: ill-formed => rejected; well-formed => accepted, executes without error under FIFO and LIFO schedulers and inside a reactive rerunner, and the response conforms to the advertised types (exact aliases, lists, scalar JSON kinds, enum values, null only where nullable, list entries excepted)"})
+		Rule: "fixture of Go shapes (all scalar widths, named scalars, enum, time, bytes, text-marshaler, pointers, slices of values/pointers/enums, nested and value structs, union, NonNullable / ListEntryNonNullable / Expensive / batch methods, NonNullable plain and batch methods (object and scalar pointers) that return nil for some objects, methods with NumParallelInvocations, null objects and lists of nulls, methods with every signature form, arguments incl. input objects) -> introspection JSON. From the JSON alone: every path of composite fields up to depth 2 (thorough 3), ending in all leaves / all fields / each field alone / the same field under two aliases (arguments filled from advertised input types), plus at every position the three ill-formedness kinds (unknown field, selection on a leaf, none on a composite), plus one named fragment (each field of each object type) spread at two positions: the same type twice (well-formed) or a second type that lacks the field or has it with the other leaf/composite kind (ill-formed), in both orders; plus one composite field selected under one alias with two different sub-selections at two paths to the same (long-lived) object. Oracle: ill-formed => rejected; well-formed => accepted, executes without error under FIFO and LIFO schedulers and inside a reactive rerunner, and the response conforms to the advertised types (exact aliases, lists, scalar JSON kinds, enum values, null only where nullable, list entries excepted)"})
 }
